@@ -496,6 +496,19 @@ def run_case(chk, stream, case):
                     bad = True
             if bad:
                 break
+            # ---- in every state a stored session belongs to the remembered identity (C17_session_matches_pin): what is encrypted next is encrypted
+            # for the session's identity, whatever was refused or ignored a moment ago  (after a storage fault the two stores may lag: skipped)
+            if not faulted:
+                for ci in range(case["contacts"]):
+                    pin_now = A.stored_identity(CONTACT_PHONES[ci])
+                    ses_now = w._session_identity(ci)
+                    if pin_now is not None and ses_now != "-" and ses_now != str(w.key_no(ci, pin_now)):
+                        fails.append(oracle("C17:session-for-an-identity-other-than-the-remembered", "%s: identity #%s is remembered for contact %d, but the stored session is for identity "
+                                            "#%s: the next message to the contact is encrypted for an identity that is not the remembered one" % (ctx, w.key_no(ci, pin_now), ci, ses_now)))
+                        bad = True
+                        break
+                if bad:
+                    break
             if expect_at is not None:
                 client, body, ci, direction = expect_at
                 cur = w.installs[ci][-1]
